@@ -6,6 +6,8 @@ import (
 	"encoding/json"
 	"flag"
 	"fmt"
+	"io"
+	"log"
 	"os"
 	"os/exec"
 	"path/filepath"
@@ -102,6 +104,7 @@ func Main() {
 	)
 
 	flag.Parse()
+	log.SetOutput(io.Discard) // akita reports refusals with log.Panic; the panic value is what matters
 
 	if *helper != "" {
 		runHelper(*helper, flag.Args())
@@ -505,10 +508,18 @@ func replayMain(path string) int {
 
 	env.Replay = true
 
-	out, err := safeExec(p, rf.Case, env)
-	if err != nil {
-		fmt.Fprintln(os.Stderr, err)
-		return 2
+	var out Outcome
+
+	for try := 0; try < max(1, p.ReplayTries); try++ {
+		out, err = safeExec(p, rf.Case, env)
+		if err != nil {
+			fmt.Fprintln(os.Stderr, err)
+			return 2
+		}
+
+		if out.Violation != nil {
+			break
+		}
 	}
 
 	if out.Violation == nil {
